@@ -33,6 +33,11 @@ def placement(name, seed=0):
         return np.array([0.0, 1.0, 0.0]), ab.quat_to_A(np.array([0.0, 0.0, 1.0, 0.0]))  # p0 = 0
     if name == "trans":
         return ab.generic_vec(seed, 1, 3, 2.0), np.eye(3)
+    if name == "near_halfturn_mixed":
+        # rotation by almost pi about an axis with two nearly equal components of opposite sign: along a bending rod the nodal
+        # quaternions straddle a change of their largest component (a sign convention chosen per node would differ between
+        # neighbouring nodes; seeded C23-i)
+        return np.array([0.3, -0.2, 0.1]), ab.quat_to_A(np.array([0.03, 0.7, -0.7, 0.14]))
     if name == "generic":
         return ab.generic_vec(seed, 4, 3, 1.5), ab.quat_to_A(ab.generic_quat(seed, 2, unit=True))
     raise KeyError(name)
